@@ -1392,7 +1392,7 @@ func (w *world) structuredByzProposal(h int64, r int32, pk int, pat pattern) {
 	if like == nil {
 		return
 	}
-	strat := rapid.SampledFrom([]string{"none", "new", "new", "new", "new", "reuse", "two", "two", "invalid", "stale", "forged-lastcommit", "two-encodings"}).Draw(w.t, "bprop.strat")
+	strat := rapid.SampledFrom([]string{"none", "new", "new", "new", "new", "reuse", "two", "two", "invalid", "stale", "forged-lastcommit", "two-encodings", "mislabelled"}).Draw(w.t, "bprop.strat")
 	if h > w.net.Cfg.InitialHeight && rapid.IntRange(0, 3).Draw(w.t, "bprop.flc") == 0 {
 		strat = "forged-lastcommit" // only possible above the first height: give it its share there
 	}
@@ -1441,6 +1441,15 @@ func (w *world) structuredByzProposal(h int64, r int32, pk int, pat pattern) {
 		if bi := mk(0, true); bi != nil {
 			w.net.InjectProposal(pk, h, r, pol, bi.block, bi.parts, nil, true)
 			w.stats.byzProposals++
+		}
+	case "mislabelled":
+		// a valid block under its genuine part-set header, but the proposal STATES another block hash
+		if bi := mk(0, false); bi != nil {
+			id := types.BlockID{Hash: append([]byte(nil), bi.id.Hash...), PartSetHeader: bi.id.PartSetHeader}
+			id.Hash[rapid.IntRange(0, len(id.Hash)-1).Draw(w.t, "bprop.flip")] ^= 0x40
+			w.net.InjectProposalAs(pk, h, r, pol, id, bi.parts, nil)
+			w.stats.byzProposals++
+			lib.Class(w.opt.Test, "proposal-stating-another-hash")
 		}
 	case "two-encodings":
 		// ONE block in two serialisations (same block hash, different part-set header): the canonical bytes for one
